@@ -587,19 +587,21 @@ def rule_noop(ctx, rep):
     if not lb:
         rep.error("R-C05-noop", "lexer::tokenize not found")
         return
-    b = lb[0]
+    from vlib.inline import inlined
+    b = inlined(ctx.prog, lb[0])
     from rules import panics
     n = {}
+    role = {l: nm for nm, l in lexer_counters(b).items()}
     for i, j, s in sorted(b.all_stmts(), key=lambda t: (t[2][3][0], t[2][3][1])):
         if s[0] != "=" or s[2][0] != "bin" or not s[2][1].startswith("Add"):
             continue
-        # operands: a named counter and something
+        # operands: one of the two position counters (found by role) and something
         names = []
         for o in (s[2][2], s[2][3]):
             p = op_place(o)
             if p is not None:
                 rt = b.root(p)
-                names.append(b.local_name(rt[0]) if not rt[1] else None)
+                names.append(role.get(rt[0]) if not rt[1] else None)
         cnt = [x for x in names if x in ("line", "col")]
         if not cnt:
             continue
@@ -787,7 +789,8 @@ def rule_linecol(ctx, rep, rid="R-C05-linecol"):
     if not lb:
         rep.error(rid, "lexer::tokenize not found")
         return
-    b = lb[0]
+    from vlib.inline import inlined
+    b = inlined(ctx.prog, lb[0])
     where0 = "%s:%d" % (b.f["file"], b.f["line"])
     loc = lexer_counters(b)
     if set(loc) != {"line", "col"}:
